@@ -1,6 +1,7 @@
 (* C06 -- Each link is validated as if it were alone.  Property theorems only. *)
 From Coq Require Import List NArith.
-From FP Require Import Model.Base Model.Rdh Model.Scanner Model.CdpRunning Model.Link Proofs.C06_proofs.
+From FP Require Import Model.Base Model.Rdh Model.Scanner Model.CdpRunning Model.Link Model.Collector Model.System Spec.Framing Spec.GroundTruth
+  Proofs.C03_proofs Proofs.C05_proofs Proofs.C06_proofs Proofs.C07_run Proofs.C14_proofs Proofs.C06_run.
 From FP Require Gen.Facts.
 Import ListNotations.
 Open Scope N_scope.
@@ -53,9 +54,51 @@ Example C06_nonvacuous :
   run_validator c06_cfg (sel c06_cfg 0 [a; b; a]) = Ok [].
 Proof. cbn zeta. split; [vm_compute; reflexivity|]. split; [eexists; vm_compute; reflexivity | vm_compute; reflexivity]. Qed.
 
+(* ONE WHOLE `check` RUN on a well-framed input (any number of units, any interleaving, any contents, any filter; provisos as in
+   C05_whole_run): the messages of the final report -- what the statistics file stores and the report shows, in that order -- that lie
+   in the packets of one dispatch unit are EXACTLY the stably sorted messages of one sequential pass of a validator over that unit's
+   packets alone.  Nothing another unit carries, however corrupted and however interleaved, adds, removes or reorders one of them. *)
+Theorem C06_whole_run : forall c pkts ff s shown e id ms,
+  Forall wf_pkt pkts -> N.of_nat (length pkts) < U32_MAX -> pay_all pkts < U32_MAX ->
+  (forall p, In p pkts -> layout_rp (hdr p) (p_payload p)) ->
+  (forall p r, pkts = p :: r -> known_sysid (r_system_id (hdr p)) = true) ->
+  let cdps := map (mk_cdp (rc_scan c)) (selected (rc_scan c) 0 pkts) in
+  run_check ff c (serialize pkts) = R_done s shown e ->
+  sel (rc_check c) id cdps <> [] -> run_validator (rc_check c) (sel (rc_check c) id cdps) = Ok ms ->
+  filter (fun m => in_unitb (sel (rc_check c) id cdps) (m_off m)) (k_errors s) = sort_msgs (errs_of ms).
+Proof.
+  exact (fun c pkts ff s shown e id ms H1 H2 H3 H4 H5 =>
+           c06_whole_run c pkts (eq_refl : Gen.Facts.cdp_offset_sampled_after = true) (eq_refl : Gen.Facts.error_sort_when_muted = true)
+                         H1 H2 H3 H4 H5 ff s shown e id ms).
+Qed.
+
+(* two inputs in which the unit's own packets are the same (same bytes at the same offsets): the unit's part of the two reports is the same *)
+Corollary C06_whole_run_independent : forall c pkts1 pkts2 ff s1 sh1 e1 s2 sh2 e2 id ms,
+  Forall wf_pkt pkts1 -> N.of_nat (length pkts1) < U32_MAX -> pay_all pkts1 < U32_MAX ->
+  (forall p, In p pkts1 -> layout_rp (hdr p) (p_payload p)) ->
+  (forall p r, pkts1 = p :: r -> known_sysid (r_system_id (hdr p)) = true) ->
+  Forall wf_pkt pkts2 -> N.of_nat (length pkts2) < U32_MAX -> pay_all pkts2 < U32_MAX ->
+  (forall p, In p pkts2 -> layout_rp (hdr p) (p_payload p)) ->
+  (forall p r, pkts2 = p :: r -> known_sysid (r_system_id (hdr p)) = true) ->
+  let cdps1 := map (mk_cdp (rc_scan c)) (selected (rc_scan c) 0 pkts1) in
+  let cdps2 := map (mk_cdp (rc_scan c)) (selected (rc_scan c) 0 pkts2) in
+  sel (rc_check c) id cdps1 = sel (rc_check c) id cdps2 -> sel (rc_check c) id cdps1 <> [] ->
+  run_validator (rc_check c) (sel (rc_check c) id cdps1) = Ok ms ->
+  run_check ff c (serialize pkts1) = R_done s1 sh1 e1 -> run_check ff c (serialize pkts2) = R_done s2 sh2 e2 ->
+  filter (fun m => in_unitb (sel (rc_check c) id cdps1) (m_off m)) (k_errors s1) =
+  filter (fun m => in_unitb (sel (rc_check c) id cdps1) (m_off m)) (k_errors s2).
+Proof.
+  intros c pkts1 pkts2 ff s1 sh1 e1 s2 sh2 e2 id ms A1 A2 A3 A4 A5 B1 B2 B3 B4 B5. cbv zeta. intros E Hne Hr R1 R2.
+  rewrite (C06_whole_run c pkts1 ff s1 sh1 e1 id ms A1 A2 A3 A4 A5 R1 Hne Hr).
+  rewrite E in *.
+  rewrite (C06_whole_run c pkts2 ff s2 sh2 e2 id ms B1 B2 B3 B4 B5 R2 Hne Hr). reflexivity.
+Qed.
+
 Print Assumptions C06_dispatch_key_source_shape.
 Print Assumptions C06_dispatch_key.
 Print Assumptions C06_isolated.
 Print Assumptions C06_alone.
 Print Assumptions C06_independent.
 Print Assumptions C06_extraction.
+Print Assumptions C06_whole_run.
+Print Assumptions C06_whole_run_independent.
